@@ -5,6 +5,6 @@ CHECKS = {}
 for _f in sorted(glob.glob(os.path.join(_D, "c[0-9][0-9].meta.json"))):
     CHECKS[os.path.basename(_f)[:3].upper()] = json.load(open(_f))
 # commits in /repo that add guarded hooks (CPPUTEST_VERIF_HOOKS)
-HOOK_COMMITS = []
+HOOK_COMMITS = ["9383ef6", "4650e66"]
 _na = os.path.join(_D, "not_applicable.json")
 NOT_APPLICABLE = json.load(open(_na)) if os.path.exists(_na) else {}
